@@ -189,15 +189,23 @@ def cvs_case(rnd, vd, kind):
         is_array = isinstance(obs, np.ndarray)
         obs = [float(s) for s in obs]
         reruns = []
+        errors = []
         for sched in ("synchronous", "threads"):
             dl = vd.cross_val_score(est, coords, d_arg, w_arg, cv=cvf(), scoring=sc_arg, delayed=True)
-            reruns.append([float(s) for s in dask.compute(*dl, scheduler=sched)])
+            try:
+                reruns.append([float(s) for s in dask.compute(*dl, scheduler=sched)])
+            except Exception as exc:  # a crash of the delayed path is a difference from the serial path
+                reruns.append([])
+                errors.append("%s: %s: %s" % (sched, type(exc).__name__, exc))
         dl = vd.cross_val_score(est, coords, d_arg, w_arg, cv=cvf(), scoring=sc_arg, delayed=True)
         order = list(range(len(dl)))
         rnd.shuffle(order)
         res = {}
         for k in order:
-            res[k] = float(dl[k].compute(scheduler="synchronous"))
+            try:
+                res[k] = float(dl[k].compute(scheduler="synchronous"))
+            except Exception as exc:
+                errors.append("shuffled[%d]: %s: %s" % (k, type(exc).__name__, exc))
         shuffled = [res[k] for k in sorted(res)]
         after = snapshot(est)
         # the oracle: independent clones on the training rows
@@ -237,7 +245,7 @@ def cvs_case(rnd, vd, kind):
     inp = {"estimator": name, "cv": cvname, "scoring": scoring, "n": n, "components": ncomp, "weighted": weighted,
            "data_seed": int(rs.randint(0, 2 ** 31 - 1)), "probed_splits": nprobe}
     trivial = all(abs(s - 1) < 1e-9 or abs(s) < 1e-12 for s in obs)
-    return Case(inp, {"scores": obs, "delayed": reruns[:2], "shuffled_order": order, "untouched": untouched}, term,
+    return Case(inp, {"scores": obs, "delayed": reruns[:2], "shuffled_order": order, "untouched": untouched, "delayed_errors": errors}, term,
                 "# verde.cross_val_score(%s, cv=%s, scoring=%s) on %d random points x %d components; see harness/c12.py cvs_case" % (name, cvname, scoring, n, ncomp),
                 kind + ":" + cvkind, nontrivial=not trivial)
 
@@ -347,8 +355,9 @@ def splinecv_case(rnd, vd, kind):
         dd = rnd.sample([1e-3, 1e-1, 10.0], 2)
         dampings = [dd[0], dd[1], dd[0], dd[1]] if rnd.random() < 0.5 else [dd[0], dd[0], dd[1]]
     else:
-        # mindist only clips distances from below: two values below every distance give bit-identical scores
-        mindists = rnd.choice([[1e-9, 1e-7], [1e-7, 1e-9], [1e-8, 1e-6, 1e-7]])
+        # mindist is ADDED to every distance: values so small that they are absorbed (and whose square underflows on
+        # the diagonal) give bit-identical scores for different candidates
+        mindists = rnd.choice([[1e-200, 1e-180], [1e-180, 1e-200], [1e-190, 1e-200, 1e-180]])
         dampings = rnd.sample([1e-3, 1e-1, 10.0], 2)
     scoring = rnd.choice([None, None, "neg_mean_squared_error", "neg_mean_absolute_error"])
     seed = rnd.randint(0, 10 ** 6)
@@ -363,8 +372,13 @@ def splinecv_case(rnd, vd, kind):
         pred_cv = scv.predict(q)
         ref = vd.Spline(mindist=chosen[0], damping=chosen[1]).fit(coords, data, weights)
         pred_ref = ref.predict(q)
-        scd = vd.SplineCV(mindists=mindists, dampings=dampings, cv=cvf(), scoring=scoring, delayed=True).fit(coords, data, weights)
-        others = [(float(scd.mindist_), float(scd.damping_))]
+        delayed_error = None
+        try:
+            scd = vd.SplineCV(mindists=mindists, dampings=dampings, cv=cvf(), scoring=scoring, delayed=True).fit(coords, data, weights)
+            others = [(float(scd.mindist_), float(scd.damping_))]
+        except Exception as exc:  # a crash of the delayed path is a difference from the serial path
+            others = [(-1.0, -1.0)]
+            delayed_error = "%s: %s" % (type(exc).__name__, exc)
         table = []
         import itertools
         for md, dm in itertools.product(mindists, dampings):
@@ -374,7 +388,8 @@ def splinecv_case(rnd, vd, kind):
         cDl(pred_cv), cDl(pred_ref), clist([cpair(cD(a), cD(b)) for a, b in others]))
     ties = len(set(scores)) < len(scores)
     return Case({"mindists": mindists, "dampings": dampings, "scoring": scoring, "n": n, "weighted": weighted, "data_seed": int(rs.randint(0, 2 ** 31 - 1))},
-                {"scores_": scores, "mindist_": chosen[0], "damping_": chosen[1], "exact_ties": ties}, term,
+                {"scores_": scores, "mindist_": chosen[0], "damping_": chosen[1], "exact_ties": ties, "delayed_choice": others[0],
+                 "delayed_error": delayed_error}, term,
                 "# verde.SplineCV(mindists=%s, dampings=%s, scoring=%s) on %d random points; see harness/c12.py splinecv_case" % (mindists, dampings, scoring, n),
                 kind + (":ties" if ties else ""))
 
